@@ -459,6 +459,8 @@ def config_table(ctx):
         "phase ordinal out of range": {"input": dict(modes["paths"]), "parameters": {"phase_assemblage": [7], "phase_fractions": [1.0]}},
         "unknown fabric letter": {"input": dict(modes["paths"]), "parameters": {"initial_olivine_fabric": "Q"}},
         "fabric of the wrong type": {"input": dict(modes["paths"]), "parameters": {"initial_olivine_fabric": 3}},
+        **{f"fabric {bad!r} is not one of the letters": {"input": dict(modes["paths"]), "parameters": {"initial_olivine_fabric": bad}}
+           for bad in ("AB", "", "ABCDE", "BC", "a", "A ", " A", "olivine_A", "F", "AA", True)},
         "too few creep coefficients": {"input": dict(modes["paths"]), "parameters": {"disl_coefficients": [1.0, 2.0]}},
         "output for an unknown phase": {"input": dict(modes["paths"]), "output": {"raw_output": ["peridot"]}},
         "output for a phase that is not simulated": {"input": dict(modes["paths"]), "output": {"diagnostics": ["enstatite"]}},
